@@ -41,6 +41,10 @@ CHECKS = {
    text="TLA+ spec FlowControl (receive side: accept iff within advertised, advertised limits monotone and = consumed + window, windows bounded, every consumed / abandoned byte credited to the connection exactly once; send side: new bytes within the largest limits seen, blocked once per limit) model-checked by TLC; three tiers bound to it: (1) component - TLC-enumerated call sequences and seeded walks on real stream flow controllers sharing a real connection flow controller, 4 window configurations incl. maximum below initial; (2) send-stream - real SendStreams with packetisation budgets, losses, MAX_* updates, reliable boundary / CancelWrite / STOP_SENDING; (3) wire - real connections where the in-tree server tries to overshoot limits that a fingerprint spec advertises differently per stream kind, judged from the receiver's qlog (FlowWire). All traces validated by TLC.",
    note="Trusted: TLC, harness projections (window sizes, bytes read read in-package), qlog as faithful record of 1-RTT frames in the wire tier. Auto-tuning decisions are left open (a window may grow up to its maximum at any update).",
    technique="TLA+ model checking (TLC) + TLC-enumerated / seeded stimuli replayed into the real code at three tiers + TLC trace validation"),
+ "C10": dict(engine="InitialFlight", design="5 C10",
+   text="TLA+ spec InitialFlight: what an observer who removes Initial protection with the standard keys must see of the first flight given the InitialPacketSpec knobs (connection-ID lengths, first packet number and increment, per-packet packet-number length incl. list vs deprecated single value, token length / prefix / freshness across dials, frame types and counts, CRYPTO continuity and planned split offsets, exact packet size vs minimum datagram size). TLC enumerates the knob product over base fingerprints (FlightKnobs); every configuration is dialled 2-3 times into a silent socket, built-in fingerprints 20-100 times; every decrypted packet is validated by TLC (collect mode).",
+   note="Trusted: TLC, the independent observer (Initial key derivation, header protection, AEAD, frame reader). Configurations whose first packet number cannot be carried by the chosen encoding are excluded (no server could decode them). Only the first flight (before the first PTO) is judged.",
+   technique="TLA+ (TLC) knob enumeration + real dials observed on the wire by an independent decryptor + TLC trace validation"),
 }
 NA = {}
 
